@@ -3178,11 +3178,11 @@ func lemmaForwardSession(raw *rawEnvelope) (e *Session, e3 *Session, accepted bo
 //@   ensures 0 <= n && n <= len(b)
 
 //@ func (*ctxConn).Read :: (c, b) (n, err)
-//@   props C04 C12
+//@   props C01 C04 C12
 //@   requires c != nil && c.conn != nil && c.readCtx != nil
 //@   modifies c.conn.rcount
 //@   loop 0 invariant c.conn.rcount == old(c.conn.rcount)
-//@   ensures [C04,C12] @accounting c.conn.rcount == old(c.conn.rcount) + n
+//@   ensures [C01,C04,C12] @accounting c.conn.rcount == old(c.conn.rcount) + n
 //@   ensures 0 <= n && n <= len(b)
 
 // ---------------------------------------------------------------------------
